@@ -168,6 +168,20 @@ pub fn compositions(n: usize) -> Vec<Vec<usize>> {
     if n == 0 {
         return vec![vec![]];
     }
+    if n > 20 {
+        // too many to enumerate: a fixed, structured selection (callers say so in their rule)
+        let mut out = vec![vec![n], vec![1, n - 1], vec![n - 1, 1], vec![n / 2, n - n / 2], vec![1; n]];
+        for k in [3usize, 7, 1024, 4096, 4097] {
+            if k < n {
+                let mut parts = vec![k; n / k];
+                if n % k != 0 {
+                    parts.push(n % k);
+                }
+                out.push(parts);
+            }
+        }
+        return out;
+    }
     let mut out = vec![];
     for mask in 0u32..(1u32 << (n - 1)) {
         let mut parts = vec![];
